@@ -76,6 +76,16 @@ REGISTRY['C16'] = {
     'not_covered': ['rpki-rs CMS and XML decoders, serde_json, hyper (the larger half of the statement)'],
 }
 
+REGISTRY['C20'] = {
+    'v': ['c20_auth'],
+    'k': [],
+    'k_thorough': ['k_admin_token'],
+    'level_text': 'Credential kernels on the real text: the admin token authenticates exactly when the bearer token is byte-equal to the configured one (wrong token is an error, no token is nobody) and then acts as the configured identity; decrypt rejects short payloads without slicing out of bounds, passes nonce/tag/ciphertext to AEAD-open in the right positions and returns only what it returned (rejected iff the tag fails). scrypt, base64, Unicode normalisation of user names and session-cache hits are not decided.',
+    'level_note': 'ChaCha20-Poly1305 open, bearer-token extraction, Token equality (derived PartialEq over String) are assumed externals.',
+    'design_ref': 'DESIGN.md section 5 / C20',
+    'not_covered': ['config_file provider login (scrypt, hex, Unicode normalisation)', 'session cache hits (tokio RwLock)', 'OpenID Connect provider'],
+}
+
 NOT_APPLICABLE = [
     {'property_id': 'C06', 'reason': 'whole-history equality between three evaluation paths of a generic AggregateStore closure (replay = snapshot+tail = cache) plus serde round trips; no per-call contract expresses it (DESIGN.md section 6)'},
     {'property_id': 'C07', 'reason': 'quantifies over thread schedules and lock discipline; Kani has no threads, Verus would need permission types the code does not use (DESIGN.md section 6)'},
